@@ -502,6 +502,14 @@ def strip_ensures(contract: str) -> str:
     return "\n".join(out)
 
 
+def spec_rename(unit: dict, sf: str, text: str) -> str:
+    """"spec_renames": {"<spec or contract file as listed>": {"old": "new"}} — whole-word renaming of ghost names in a
+    BORROWED spec/contract file, for units that combine two spec packs defining the same name (e.g. `cur_owner`)"""
+    for a, b in unit.get("spec_renames", {}).get(sf, {}).items():
+        text = re.sub(r"\b%s\b" % re.escape(a), b, text)
+    return text
+
+
 class Assembled:
     def __init__(self):
         self.text = ""
@@ -535,7 +543,7 @@ def assemble(unit: dict, scratch: str, passname="A") -> Assembled:
     specs = {}
     for sf in unit.get("contracts", []):
         p = os.path.join(unit["dir"], sf)
-        specs.update(parse_vspec(open(p).read(), p))
+        specs.update(parse_vspec(spec_rename(unit, sf, open(p).read()), p))
     fn_by_key = {f["key"]: f for f in tr["fns"]}
     # "rename_types": {"Map": "SdkMap"} — an SDK type whose name collides with a vstd type is renamed in the
     # generated types and the extracted functions (never in model or spec files)
@@ -602,7 +610,7 @@ def assemble(unit: dict, scratch: str, passname="A") -> Assembled:
     for sf in unit.get("spec_files", []):
         p = os.path.join(unit["dir"], sf) if not sf.startswith("common/") else os.path.join(VERIF, "specs", sf)
         b0 = sum(p_.count("\n") + 1 for p_ in parts) + 1
-        parts.append(f"// ---- {sf} ----\n" + open(p).read())
+        parts.append(f"// ---- {sf} ----\n" + spec_rename(unit, sf, open(p).read()))
         if sf in unit.get("borrowed_spec_files", []):
             borrowed.append((b0, sum(p_.count("\n") + 1 for p_ in parts)))
     text = "\n".join(parts) + "\n"
